@@ -40,8 +40,19 @@ package check
 // the tuples an edge evaluation sees are the stored ones (the iterator handed in) preceded by the request's
 // contextual tuples for this object, relation and user type whenever there are any; filtering only wraps that sequence
 //@ func (*Resolver).buildIterator(r, ctx, req, iter, conditions, relation, userType, visited) (res)
-//@   property C04
+//@   property C04 C25 C03
 //@   option nosafety
+// ... and whenever the edge may carry a condition (some listed condition is not the "none" marker) the sequence is
+// wrapped by the condition filter built from exactly these conditions and this request's context (C25 / C03: a
+// conditioned tuple is never followed unevaluated)
+//@   option monitor_props condFilter=C25,C03
+//@   ensures @conditionsEnforced (len(conditions) > 1 || (len(conditions) == 1 && conditions[0] != graph.NoCond)) ==> condBuilt && condInstalled
+//@   monitor condFilter
+//@     ghost condBuilt = false
+//@     ghost condF ref = nil
+//@     ghost condInstalled = false
+//@     after call check.BuildConditionTupleKeyFilter args _, m, cs, rc returning f : condBuilt = pre(cs == conditions && rc == req.GetContext()) ; condF = f
+//@     after call iterator.NewFilteredIterator* args it, fs : condInstalled = pre(len(fs) >= 1 && fs[len(fs) - 1] == condF)
 //@   ensures @storedIncluded converted && convArg == iter
 //@   ensures @contextualMerged ctxLooked && (ctxFound ==> concatenated && concatOK)
 //@   ensures @onlyWrapped res == cur || (filtered && filterArg == cur && res == filterRes)
@@ -103,9 +114,22 @@ package check
 //@     after call storage.RelationshipTupleReader.Read | storage.RelationshipTupleReader.ReadUsersetTuples | storage.RelationshipTupleReader.ReadStartingWithUser returning it, e : opened = e == nil ; cur = it ; released = false
 //@     after call defer:storage.Iterator.Stop | defer:storage.TupleKeyIterator.Stop | defer:storage.TupleIterator.Stop args recv : released = released || recv == cur
 
+// (C01 / C03, userset subjects: a direct assignment answers the edge only if it errs, allows, or the edge is neither
+// recursive nor part of a tuple cycle — on a recursive or cyclic edge a subject that is not directly assigned is looked
+// for among the usersets assigned to the object, i.e. the cycle is expanded)
 //@ func (*Resolver).specificTypeAndRelation(r, ctx, req, edge, visited) (res, err)
-//@   property C20
+//@   property C20 C01 C03
 //@   option nosafety
+//@   option monitor_props expansion=C01,C03 release=C20
+//@   ensures @cyclicEdgesAreExpanded directDone && dErr == nil && !dAllowed && cyclic ==> expanded
+//@   monitor expansion
+//@     ghost directDone = false
+//@     ghost dErr error = nil
+//@     ghost dAllowed = false
+//@     ghost cyclic = false
+//@     ghost expanded = false
+//@     after call (*check.Resolver).specificType args _, _, rq, e returning r0, e0 : directDone = rq == req && e == edge ; dErr = e0 ; dAllowed = r0.GetAllowed() ; cyclic = (edge.GetRecursiveRelation() != "" || edge.IsPartOfTupleCycle())
+//@     after call storage.RelationshipTupleReader.ReadUsersetTuples : expanded = true
 //@   ensures @iteratorReleased opened ==> released
 //@   monitor release
 //@     ghost cur iface = nil
@@ -193,3 +217,18 @@ package check
 //@     before call (*check.Resolver).ResolveUnion args _, _, rq, n, v : assert rq == req && n == node && v == visited
 //@     before call (*check.Resolver).ResolveIntersection args _, _, rq, n : assert rq == req && n == node
 //@     before call (*check.Resolver).ResolveExclusion args _, _, rq, n : assert rq == req && n == node && !req.IsTypedWildcard()
+
+// the recursive strategy's per-object reader: same rule — whenever the edge may carry a condition, the tuples it maps
+// pass through the condition filter built from the edge's conditions and this request's context
+//@ func (*Recursive).buildTupleMapperForID(s, ctx, req, edge, recursiveType, id, visited) (res, err)
+//@   property C25 C03
+//@   option nosafety
+//@   ensures @conditionsEnforced err == nil && res != nil ==> wrapped && (needs ==> condBuilt && condInstalled)
+//@   monitor condFilter
+//@     ghost condBuilt = false
+//@     ghost condF ref = nil
+//@     ghost condInstalled = false
+//@     ghost needs = false
+//@     ghost wrapped = false
+//@     after call check.BuildConditionTupleKeyFilter args _, m, cs, rc returning f : condBuilt = pre(cs == conditions && cs == edge.GetConditions() && rc == req.GetContext()) ; condF = f
+//@     after call iterator.NewFilteredIterator* args it, fs : wrapped = true ; needs = pre(conditions == edge.GetConditions() && (len(conditions) > 1 || (len(conditions) == 1 && conditions[0] != graph.NoCond))) ; condInstalled = pre(len(fs) >= 1 && fs[len(fs) - 1] == condF)
